@@ -11,7 +11,7 @@ CONSTANTS
   CostSet = {0, 1}
   TtlSet = {0}
   MaxCostSet = {4}
-  SetMaxSet = {2}
+  SetMaxSet = {0, 2}
   AdvSet = {}
   Budget = 4
   Ops = {"insert", "insert_if_present", "remove", "get", "clear", "set_max"}
